@@ -174,6 +174,27 @@ NativeMaps(s) ==
     \cup { M("typed", << <<ks[p[1]], w1>>, <<ks[p[2]], w2>> >>) : p \in { <<1, 2>>, <<1, 3>>, <<2, 3>> }, w1 \in ws, w2 \in ws }
     \cup { M("typed", << <<ks[1], w>>, <<ks[2], w>>, <<ks[3], w>> >>) : w \in ws }
 
+\* raw containers whose Go type already EQUALS the schema's reflected type (map[string]any, map[int64]any, []any) while
+\* their elements still need the `any` normalisation - the accepted result is the denoted (normalised) value
+AnyElemsRaw == { I("int", 1), I("uint8", 2), I("uint64", 1), F("float32", 3), I64(1), Str("a"), L("typed", <<Str("a"), Str("b")>>), L("any", <<I("int", 1)>>),
+                 M("string_any", << <<Str("a"), I("int", 1)>> >>), M("int64_any", << <<I64(1), I("uint8", 1)>> >>), L("bytes", <<I("uint8", 1)>>) }
+AnyContainerSchemas ==
+    { MapS(StringS(None, None, None), AnyS, None, None, t) : t \in {FALSE} } \cup { MapS(IntS(None, None, None), AnyS, None, None, FALSE), ListS(AnyS, None, None, FALSE),
+      MapS(StringS(None, None, None), MapS(StringS(None, None, None), AnyS, None, None, FALSE), None, None, FALSE),
+      ListS(MapS(StringS(None, None, None), AnyS, None, None, FALSE), None, None, FALSE),
+      ListS(MapS(IntS(None, None, None), AnyS, None, None, FALSE), None, None, FALSE) }
+AnyContainerRaw(s) ==
+    LET smap(x) == M("string_any", << <<Str("a"), x>> >>)
+        imap(x) == M("int64_any", << <<I64(1), x>> >>)
+    IN IF s.kind = "list" THEN
+            (IF s.items.kind = "any" THEN {L("any", <<x>>) : x \in AnyElemsRaw} \cup {L("any", <<x, y>>) : x \in {I("int", 1), Str("a")}, y \in AnyElemsRaw}
+             ELSE IF s.items.keys.kind = "string" THEN {L("any", <<smap(x)>>) : x \in AnyElemsRaw} \cup {L("typed", <<smap(x)>>) : x \in AnyElemsRaw}
+             ELSE {L("any", <<imap(x)>>) : x \in AnyElemsRaw} \cup {L("typed", <<imap(x)>>) : x \in AnyElemsRaw})
+       ELSE IF s.values.kind = "map" THEN {smap(smap(x)) : x \in AnyElemsRaw} \cup {M("typed", << <<Str("a"), smap(x)>> >>) : x \in AnyElemsRaw}
+       ELSE IF s.keys.kind = "string" THEN {smap(x) : x \in AnyElemsRaw} \cup {M("any_any", << <<Str("a"), x>> >>) : x \in AnyElemsRaw}
+                                          \cup {M("string_any", << <<Str("a"), x>>, <<Str("b"), y>> >>) : x \in {I("int", 1)}, y \in AnyElemsRaw}
+       ELSE {imap(x) : x \in AnyElemsRaw} \cup {M("any_any", << <<I("int", 1), x>> >>) : x \in AnyElemsRaw}
+
 \* depth 3 (thorough): containers of containers over a reduced leaf set
 DeepSchemas ==
     IF ~Deep THEN {}
@@ -260,10 +281,23 @@ C04ChainLeafs ==
                          ObjectS("o2", << Prop("a", IntS(Some(1), Some(2), None), TRUE) >>, "map", FALSE) >>) }   \* a chain that ends
 C04ChainValues == { Str("a"), Str("1"), Nil, I64(1), L("any", <<I64(1)>>), L("bytes", <<I("uint8", 1)>>),
                     M("any_any", << <<Str("n"), Str("a")>> >>), M("string_any", << <<Str("n"), M("any_any", << <<Str("n"), I64(1)>> >>)>> >>) }
+\* termination within a bound polynomial in the input: schemas that recurse through a list / a map, and
+\* WELL-FORMED values nested d levels (root id "DEEP0": run with the short per-case bound, hang = verdict)
+NodeScope == ScopeS("DEEP0", << ObjectS("DEEP0", << Prop("a", IntS(None, None, None), TRUE), Prop("l", ListS(RefS("DEEP0"), None, None, FALSE), FALSE) >>, "map", FALSE) >>)
+DirScope == ScopeS("DEEP0", << ObjectS("DEEP0", << Prop("m", MapS(StringS(None, None, None), RefS("DEEP0"), None, None, FALSE), FALSE) >>, "map", FALSE) >>)
+RECURSIVE DeepNode(_, _), DeepDir(_, _)
+DeepNode(d, rep) ==
+    IF d = 0 THEN M(rep, << <<Str("a"), I64(1)>> >>)
+    ELSE M(rep, << <<Str("a"), I64(1)>>, <<Str("l"), L(IF rep = "string_any" THEN "typed" ELSE "any", <<DeepNode(d - 1, rep)>>)>> >>)
+DeepDir(d, rep) ==
+    IF d = 0 THEN M(rep, <<>>)
+    ELSE M(rep, << <<Str("m"), M(IF rep = "string_any" THEN "typed" ELSE "any_any", << <<Str("a"), DeepDir(d - 1, rep)>> >>)>> >>)
+DeepDepths == {2, 4}      \* the shape is checked on the model at small depth; the harness scales the depth (deep.go: 16..64)
 C04LoopValues == { Str("a"), L("any", <<I64(1)>>), M("any_any", <<>>), M("any_any", << <<Str("n"), Nil>> >>),
                    M("string_any", << <<Str("n"), M("any_any", << <<Str("n"), M("any_any", <<>>)>> >>)>> >>) }
 C04Leafs ==
-    { IntS(Some(1), Some(2), None), IntS(None, None, Some("sec")), FloatS(Some(2), Some(4), None),
+    { IntS(Some(1), Some(2), None), IntS(None, None, Some("sec")), FloatS(Some(2), Some(4), None), FloatS(None, None, Some("sec")),
+      IntS(None, Some(3), Some("bytes")), FloatS(None, None, Some("nanos")),
       StringS(Some(1), Some(2), Some("lower")), BoolS, PatternS, EnumIntS(<<1, 2>>, None),
       EnumStrS(<<"a", "b">>, FALSE), EnumStrS(<<"a", "b">>, TRUE), AnyS,
       ListS(IntS(Some(1), Some(2), None), None, Some(2), FALSE), ListS(AnyS, None, None, FALSE),
@@ -277,7 +311,8 @@ C04Values ==
     \cup {I(r, 1) : r \in IntReps \cup {"named"}} \cup {I("uint64", IMax + 1), I64(IMin), I64(IMax), I64(0), I("int", -1), I("named", 0)}
     \cup {F(r, 3) : r \in FloatReps \cup {"named"}} \cup {F64(2), F64(2 * (IMax + 1)), F64(2 * (IMin - 1))}
     \cup {FS(r, x) : r \in FloatReps, x \in {"nan", "+inf", "-inf"}}
-    \cup {Str("a"), Str("1"), Str("#empty"), Str("["), Str("true"), Str("1s"), Str("nan"), S("named", "a"), S("named", "1")}
+    \cup {Str("a"), Str("1"), Str("#empty"), Str("["), Str("true"), Str("1s"), Str("nan"), S("named", "a"), S("named", "1"),
+          Str("5m30s"), Str("1x"), Str("#sp"), Str("#big:9223372036854775808s"), Str("#big:8191PB"), Str("#big:106752d")}
     \cup {L("any", <<>>), L("any", <<I64(1)>>), L("any", <<Nil>>), L("any", <<I64(1), Str("a")>>), L("typed", <<>>),
           L("typed", <<Str("a")>>), L("typed", <<I64(1), I64(2)>>), L("bytes", <<I("uint8", 1)>>), L("bytes", <<>>),
           L("any", <<L("any", <<>>)>>), L("any", <<J("nilptr")>>), L("typed", <<I("named", 1)>>)}
@@ -460,6 +495,13 @@ ZeroContainerRaw(s) ==
     IF s.kind = "list" THEN {L("any", <<x>>) : x \in ZeroInner} \cup {L("any", <<x, y>>) : x \in ZeroInner, y \in ZeroInner}
     ELSE {M("string_any", << <<Str("a"), x>> >>) : x \in ZeroInner}
 
+\* string properties backed by []byte / []rune / defined-string FIELDS of a struct
+StrsObjs ==
+    { ObjectS("B", << Prop("b", StringS(Some(1), Some(2), None), TRUE), Prop("r", StringS(None, Some(2), None), TRUE),
+                      PropS("e", StringS(None, None, None), FALSE, <<>>, <<>>, <<>>, Some(Str("ab")), FALSE, FALSE), Prop("a", IntS(None, None, None), TRUE) >>, "strs", t) : t \in BOOLEAN }
+StrsRaw ==
+    { M("any_any", << <<Str("b"), x>>, <<Str("r"), y>>, <<Str("a"), I64(1)>> >>) : x \in {Str("a"), Str("#eacute"), Str("abc"), I64(1)}, y \in {Str("a"), Str("#eacute"), Str("#empty")} }
+    \cup { M("string_any", << <<Str("b"), Str("a")>>, <<Str("r"), Str("ab")>>, <<Str("e"), Str("b")>>, <<Str("a"), I("uint64", 2)>> >>) }
 \* treat-empty-as-default on by-value fields (struct layouts only)
 EidObjs ==
     { ObjectS("E", << PropS("a", IntS(None, Some(2), None), req, <<>>, <<>>, cf, None, FALSE, TRUE),
@@ -584,6 +626,7 @@ InitC02 ==
           \/ \E x \in RawMaps : vec = Vec(s, "unser", x)
           \/ ~s.typed /\ \E x \in NativeMaps(s) : \E op \in {"valid", "ser"} : vec = Vec(s, op, x)
     \/ \E s \in DeepSchemas : \E x \in DeepRaw(s) : vec = Vec(s, "unser", x)
+    \/ \E s \in AnyContainerSchemas : \E x \in AnyContainerRaw(s) : vec = Vec(s, "unser", x)
 
 InitC04 ==
     \/ \E leaf \in C04Leafs : \E x \in C04Values : \E p \in Positions(leaf, x) :
@@ -595,6 +638,9 @@ InitC04 ==
     \/ \E leaf \in C04ChainLeafs : \E x \in C04ChainValues :
           \E p \in { <<leaf, x>>, <<ListS(leaf, None, None, FALSE), L("any", <<x>>)>> } :
               \E op \in {"unser", "compat"} : vec = Vec(p[1], op, p[2])
+    \/ \E d \in DeepDepths :
+          \/ \E op \in {"unser", "compat"} : vec = Vec(NodeScope, op, DeepNode(d, "any_any")) \/ vec = Vec(DirScope, op, DeepDir(d, "any_any"))
+          \/ \E op \in {"valid", "ser"} : vec = Vec(NodeScope, op, DeepNode(d, "string_any")) \/ vec = Vec(DirScope, op, DeepDir(d, "string_any"))
     \/ \E leaf \in C04DefLoopLeafs : \E x \in { M("any_any", <<>>), M("string_any", << <<Str("a"), I64(1)>> >>) } :
           \E op \in {"unser", "compat"} : vec = Vec(leaf, op, x)
 
@@ -624,6 +670,7 @@ InitC03 ==
     \/ \E s \in ShorthandDefaultObjs : \E x \in ShorthandDefaultRaw : \E op \in {"unser", "compat"} : vec = Vec(s, op, x)
     \/ \E s \in ZooObjs : \E x \in ZooRaw : vec = Vec(s, "unser", x)
     \/ \E s \in ZeroObjs : \E x \in ZeroRaw : vec = Vec(s, "unser", x)
+    \/ \E s \in StrsObjs : \E x \in StrsRaw : vec = Vec(s, "unser", x)
     \/ \E s \in ZeroContainers : \E x \in ZeroContainerRaw(s) : vec = Vec(s, "unser", x)
     \/ \E s \in EidObjs :
           \/ \E x \in ObjRawArgs(s) : vec = Vec(s, "unser", x)
@@ -706,6 +753,7 @@ InitC01 ==
     \/ \E s \in EidObjs : \E x \in ObjRawArgs(s) : Accepting(s, x) /\ vec = VecChain(s, x)
     \/ \E s \in OneOfs \cup OneOfStruct \cup OneOfZeroKey : \E x \in OneOfRawArgs : Accepting(s, x) /\ vec = VecChain(s, x)
     \/ \E s \in TypedAnyContainers : \E x \in TypedAnyRaw(s) : vec = VecChain(s, x)
+    \/ \E s \in StrsObjs : \E x \in StrsRaw : vec = VecChain(s, x)
     \/ \E s \in RefScopes : \E x \in RefRawArgs : Accepting(s, x) /\ vec = VecChain(s, x)
     \/ \E x \in OneOfAnyArgs : Accepting(OneOfAny, x) /\ vec = VecChain(OneOfAny, x)
 
@@ -718,9 +766,13 @@ VecPath(c, op) ==
         mod |-> Outcome(c.s, BaseOp(op), arg), goodok |-> Outcome(c.s, BaseOp(op), good).ok, sub |-> <<>>,
         path |-> ExpectedPath(c), fault |-> c.fault, key |-> c.key]
 InitC17 ==
-    \E leaf \in LeafCases : \E ks \in KindSeqs(IF Deep THEN 3 ELSE 2) :
+    \E leaf \in AllLeafCases : \E ks \in KindSeqs(IF Deep THEN 3 ELSE 2) :
         LET n == Nest(ks, leaf) IN
-        n.ok /\ \E op \in {"path_unser", "path_valid"} : (op = "path_valid" => n.c.nbad.some) /\ vec = VecPath(n.c, op)
+        n.ok /\ \E op \in {"path_unser", "path_valid"} :
+            /\ (op = "path_valid" => n.c.nbad.some)
+            /\ (op = "path_unser" => Unser(leaf.s, leaf.bad).ok = "no")
+            /\ (leaf \notin LeafCases => (IF Len(ks) <= (IF Deep THEN 2 ELSE 1) THEN TRUE ELSE ks[1] \in {"list", "object", "oneof"}))
+            /\ vec = VecPath(n.c, op)
 
 InitBind ==
     \/ vec = [fam |-> "bind", what |-> "strings", toks |-> TokSeq, dec |-> DecSeq, ftok |-> FSeq,
